@@ -33,6 +33,7 @@ RULE = (
 )
 RULE += " " + 'Added after the seeding rounds: keys written with a backslash escape inside them (also as first key: VER\\\\SION), whitespace other than blank/tab/CR/LF at the edges of components, U+FEFF inside components.'
 RULE += " " + 'Round 6: file objects whose .name is an int (os.fdopen) or a bytes path without a simfile suffix - the format comes from the content.'
+RULE += " " + "Round 7: simfile.open(name, encoding='utf-8') beside simfile.open(name); alias keys next to their standard keys (BGCHANGES + ANIMATIONS, STOPS + FREEZES)."
 ASSUMPTIONS = [
     "msdparser.parse_msd is the trusted tokenizer (also for which text is stray)",
     "files are read in text mode with universal newlines, so file entry points are compared with the newline-translated text",
